@@ -283,7 +283,10 @@ Fixpoint poll_add (fuel : nat) (sid : nat) (s : sys) : list (sys * ares) :=
                   end
           | A2 c => (s, APending) ::
                     match st (LAddSender sid) s with
-                    | Some s1 => [(s1, AOk (cap (chan_at s1 c)))]
+                    | Some s1 => match lookup (streams s1) sid with
+                                 | Some _ => [(s1, AOk (cap (chan_at s1 c)))]
+                                 | None => [(s1, AErr)]         (* msg_senders found empty: the reader has failed meanwhile *)
+                                 end
                     | None => []
                     end
           end
